@@ -1,0 +1,17 @@
+//go:build verif
+
+package altair
+
+// Contracts for govc (see /verif/DESIGN.md). Comment-only: no declarations.
+
+// Signature checks of sync-committee messages: assumed predicates here (used by gossip validation, C12).
+//@ sort SpecP = *common.Spec
+//@ sort EpcP = *common.EpochsContext
+//@ sort SyncMsgT = SyncCommitteeMessage
+//@ ufun sync_msg_sig_ok(int, SpecP, EpcP, SyncMsgT) bool
+
+//@ func (msg *SyncCommitteeMessage) VerifySignature(spec, epc, domFn) err
+//@   trusted
+//@   requires msg != nil
+//@   assigns heap(CachedPubkey.decompressed)
+//@   ensures (err == nil) == sync_msg_sig_ok(gvver, spec, epc, *msg)
